@@ -240,6 +240,10 @@ def _order_uses(f, node, out, via=None, depth=0):
                 return
             if name in ("isin",):
                 return
+            if name in ("str", "repr", "format") and isinstance(fn, ast.Name):
+                # formatting a set: judge what the text is used for (an error / log message is harmless, a key or a column name is not)
+                _order_uses(f, p, out, via, depth + 1)
+                return
             if name in ("list", "tuple") and isinstance(fn, ast.Name):
                 # list(set): an ordered copy in set order; judge the consumers of the copy
                 _order_uses(f, p, out, via, depth + 1)
@@ -263,7 +267,9 @@ def _order_uses(f, node, out, via=None, depth=0):
     if isinstance(p, ast.BinOp) and isinstance(p.op, (ast.BitAnd, ast.BitOr, ast.Sub, ast.BitXor)):
         _order_uses(f, p, out, via, depth + 1)
         return
-    if isinstance(p, (ast.FormattedValue, ast.JoinedStr)):
+    if isinstance(p, (ast.FormattedValue, ast.JoinedStr)) or (isinstance(p, ast.BinOp) and isinstance(p.op, (ast.Add, ast.Mod))):
+        # text built from the set: judged by its consumers, like the set itself
+        _order_uses(f, p, out, via, depth + 1)
         return
     if isinstance(p, (ast.For, ast.comprehension)) and p.iter is node:
         out.append((p, "iterated"))
